@@ -47,17 +47,19 @@ class PreparedConditionCallable:
         if not source_data:
             return self.args, self.kwargs
 
-        resolved_args = []
-        for arg in self.args:
+        def resolve(arg, check_items=True):
+            # as in `from_spec`, data paths may be given as an argument or as the items
+            # (one level) of a list or mapping argument:
             if isinstance(arg, valida.datapath.DataPath):
-                arg = arg.get_data(source_data, return_paths=False)
-            resolved_args.append(arg)
+                return arg.get_data(source_data, return_paths=False)
+            elif check_items and isinstance(arg, (list, tuple)):
+                return type(arg)(resolve(i, False) for i in arg)
+            elif check_items and isinstance(arg, dict):
+                return {k: resolve(v, False) for k, v in arg.items()}
+            return arg
 
-        resolved_kwargs = {}
-        for k, v in self.kwargs.items():
-            if isinstance(v, valida.datapath.DataPath):
-                v = v.get_data(source_data, return_paths=False)
-            resolved_kwargs[k] = v
+        resolved_args = [resolve(arg) for arg in self.args]
+        resolved_kwargs = {k: resolve(v) for k, v in self.kwargs.items()}
 
         return tuple(resolved_args), resolved_kwargs
 
